@@ -171,6 +171,11 @@ func runSchemaKeySource(p *Prog, r *Report) {
 					}
 				}
 			}
+			if id, ok := arg.(*ast.Ident); ok && !okSrc {
+				if src := roundTrippedSchemaKeys(fn, info.ObjectOf(id)); src != "" {
+					okSrc, detail = true, "an element of "+src+", which only ever holds string(k) of existing schema keys"
+				}
+			}
 			if okSrc {
 				r.Add("E11.schema-key-source", fn.Name, construct, p.Pos(call), OK, detail, true)
 			} else {
@@ -494,4 +499,104 @@ func sortedValue(fn *Func, e ast.Expr, at ast.Node, depth int) bool {
 		return n > 0 && !bad
 	}
 	return false
+}
+
+// roundTrippedSchemaKeys: o is the element variable of `for _, o := range S` where the local
+// slice S is only ever filled with string(k) of values k that already are schema keys (the
+// usual "collect the keys, sort them as strings, walk them" shape). Returns S's name.
+func roundTrippedSchemaKeys(fn *Func, o types.Object) string {
+	if o == nil {
+		return ""
+	}
+	info := fn.Info()
+	var S types.Object
+	ast.Inspect(fn.Body, func(m ast.Node) bool {
+		rs, ok := m.(*ast.RangeStmt)
+		if !ok || rs.Value == nil {
+			return true
+		}
+		if v, ok := rs.Value.(*ast.Ident); ok && info.ObjectOf(v) == o {
+			if sid, ok := ast.Unparen(rs.X).(*ast.Ident); ok {
+				S = info.ObjectOf(sid)
+			}
+		}
+		return true
+	})
+	if v, ok := S.(*types.Var); S == nil || !ok || v.IsField() || v.Parent() == nil || v.Parent() == v.Pkg().Scope() {
+		return ""
+	}
+	good, fills := true, 0
+	ast.Inspect(fn.Body, func(m ast.Node) bool {
+		switch x := m.(type) {
+		case *ast.UnaryExpr:
+			if id, ok := ast.Unparen(x.X).(*ast.Ident); ok && x.Op == token.AND && info.ObjectOf(id) == S {
+				good = false
+			}
+		case *ast.AssignStmt:
+			for i, l := range x.Lhs {
+				var rhs ast.Expr
+				if len(x.Lhs) == len(x.Rhs) {
+					rhs = x.Rhs[i]
+				}
+				if ix, ok := ast.Unparen(l).(*ast.IndexExpr); ok {
+					if id, ok := ast.Unparen(ix.X).(*ast.Ident); ok && info.ObjectOf(id) == S {
+						if rhs == nil || !isStringOfSchemaKey(info, rhs) {
+							good = false
+						} else {
+							fills++
+						}
+					}
+					continue
+				}
+				id, ok := ast.Unparen(l).(*ast.Ident)
+				if !ok || info.ObjectOf(id) != S {
+					continue
+				}
+				if rhs == nil {
+					good = false
+					continue
+				}
+				c, ok := ast.Unparen(rhs).(*ast.CallExpr)
+				switch {
+				case ok && isBuiltinCall(info, c, "make"):
+				case ok && isBuiltinCall(info, c, "append") && !c.Ellipsis.IsValid() && len(c.Args) > 0:
+					if a0, ok := ast.Unparen(c.Args[0]).(*ast.Ident); !ok || info.ObjectOf(a0) != S {
+						good = false
+					}
+					for _, a := range c.Args[1:] {
+						if !isStringOfSchemaKey(info, a) {
+							good = false
+						} else {
+							fills++
+						}
+					}
+				default:
+					if cl, ok := ast.Unparen(rhs).(*ast.CompositeLit); ok && len(cl.Elts) == 0 {
+						break
+					}
+					good = false
+				}
+			}
+		}
+		return true
+	})
+	if !good || fills == 0 {
+		return ""
+	}
+	return S.Name()
+}
+
+func isStringOfSchemaKey(info *types.Info, e ast.Expr) bool {
+	c, ok := ast.Unparen(e).(*ast.CallExpr)
+	if !ok || len(c.Args) != 1 {
+		return false
+	}
+	tv, ok := info.Types[c.Fun]
+	if !ok || !tv.IsType() {
+		return false
+	}
+	if b, ok := tv.Type.Underlying().(*types.Basic); !ok || b.Kind() != types.String {
+		return false
+	}
+	return typeIs(info.TypeOf(c.Args[0]), "hcl-lang/schema", "SchemaKey")
 }
